@@ -428,6 +428,7 @@ def run_job(job, deadline):
             per_key[k] += 1
             if per_key[k] <= MAX_VIOL_PER_KEY:
                 res['viol'].append({
+                    'group': '%s|%s|ot=%s' % k,
                     'case_id': cid, 'message': message(kind, text, pop, st),
                     'doc': {'family': fam, 'pop': [list(r) for r in pop],
                             'settings': st, 'kind': kind}})
@@ -514,10 +515,14 @@ def build_jobs(tier):
     """-> (jobs, bounds description)."""
     jobs, bounds = [], collections.OrderedDict()
     if tier == 'quick':
-        for n in (0, 1, 2, 3):
+        for n in (0, 1, 2):
             jobs += jobs_A(n)
-        bounds['A'] = ('n<=3 roots: all 6 states, all cuts, all 144 settings '
-                       '(shifted cuts: the 48 settings with older_than=T)')
+        jobs += jobs_A(3, sset_base=ALL,
+                       sset_shifted=((T,), MFS, (0, 2), IGNS))
+        bounds['A'] = ('n<=2 roots: all 6 states, all cuts, all 144 settings;'
+                       ' n=3: all 6^3 state sequences x all 7 cuts, settings '
+                       'with batch_size in {0,2} for shifted cuts (all 144 '
+                       'for the base cut)')
         for n in (2,):
             jobs += jobs_T(n)
         bounds['T'] = 'n=2 roots with tied age class, all 144 settings'
@@ -543,7 +548,18 @@ def build_jobs(tier):
         jobs += jobs_B(2)
         bounds['B'] = ('n<=2 roots: all 72 types (project-swap reduced), all '
                        '144 settings')
-    return jobs, bounds
+    # interleave the families uniformly (a deadline cut under load then
+    # costs every family the same share instead of the last family whole)
+    per = collections.defaultdict(list)
+    for j in jobs:
+        per[j[0]].append(j)
+    keyed = []
+    for fam in sorted(per):
+        n = len(per[fam])
+        for i, j in enumerate(per[fam]):
+            keyed.append(((i + 0.5) / n, fam, i, j))
+    keyed.sort(key=lambda x: x[:3])
+    return [k[3] for k in keyed], bounds
 
 
 # ------------------------------------------------------------------ main
@@ -563,12 +579,13 @@ def main(tier):
     n_jobs = len(jobs)
     jobs = common.rotate(jobs)
     budget = float(os.environ.get('C18_BUDGET_S',
-                                  75 if tier == 'quick' else 840))
+                                  80 if tier == 'quick' else 840))
     deadline = time.time() + budget
     results = common.parallel_map(run_job, jobs, deadline=deadline)
     skipped, errors = 0, []
     fam_stats = collections.defaultdict(collections.Counter)
     samples = collections.defaultdict(list)
+    viol_groups = collections.defaultdict(list)
     for job, r in zip(jobs, results):
         fam = job[0]
         if r is None or r.get('skipped'):
@@ -599,10 +616,21 @@ def main(tier):
         if r['sample'] is not None and len(samples[fam]) < 2:
             samples[fam].append(r['sample'])
         for v in r['viol']:
-            rep.violation(v['case_id'], v['message'], v['doc'])
+            viol_groups[v['group']].append(v)
     for fam in sorted(samples):
         for s in samples[fam]:
             rep.sample(s, limit=6)
+    # report round-robin over violation groups (kind, exception class,
+    # older_than), simplest population first inside a group, so that a
+    # second kind of violation is never crowded out by many of the first
+    for g in viol_groups.values():
+        g.sort(key=lambda v: (len(v['doc']['pop']), v['case_id']))
+    for tier_i in range(max([len(g) for g in viol_groups.values()] or [0])):
+        for gk in sorted(viol_groups):
+            g = viol_groups[gk]
+            if tier_i < len(g):
+                v = g[tier_i]
+                rep.violation(v['case_id'], v['message'], v['doc'])
     rep.assumptions = [
         'one evaluation = ExecutionExpirationPolicy(CONF).run_periodic_tasks'
         '(admin ctx, raise_on_error=True) on a quiescent DB: no concurrent '
